@@ -126,3 +126,4 @@ pub fn c19_processend_roundtrip() {
         (a, b) => assert!(a == b, "C19: process end changed by exit status round trip"),
     }
 }
+
